@@ -10,6 +10,7 @@ package main
 
 import (
 	"fmt"
+	"strings"
 )
 
 type thread struct {
@@ -225,7 +226,7 @@ func (in *Interp) spawnThread(fr *frame, fn Value, args []Value, name string) {
 		in.call(nil, fn, args, nil, false)
 	})
 	late := in.lateSched
-	if in.schedFork && in.cur != nil {
+	if in.schedFork && in.cur != nil && (in.schedFilter == "" || strings.HasSuffix(name, in.schedFilter)) {
 		late = in.forkChoice(2, "spawn order") == 1
 	}
 	if late {
